@@ -491,7 +491,7 @@ def _run_read_txn(ctx, b, m, t):
 
 
 def _run_config(ctx, case, kind, relativize):
-    text_ok = all(op["o"] == "add" and op["n"] not in ("OUT", "LONG") and op.get("cls", "IN") == "IN" and op["t"] not in ("CNAME", "RRSIG:CNAME") and op["ttl"] < 2**31 for op in case["base"])
+    text_ok = all(op["o"] == "add" and op["n"] not in ("OUT", "LONG", "OVER") and op.get("cls", "IN") == "IN" and op["t"] not in ("CNAME", "RRSIG:CNAME") and op["ttl"] < 2**31 for op in case["base"])
     if case.get("load_text_no_origin") and text_ok:
         # the zone object is created without an origin; it is learnt from $ORIGIN in the text
         b, m = Z.load_bench_from_text(kind, relativize, case["base"])
